@@ -140,6 +140,12 @@ type Record struct {
 	Minimised bool            `json:"minimised"`
 	MinExecs  int             `json:"minimise_executions,omitempty"`
 	OrigSteps int             `json:"original_schedule_len,omitempty"`
+	// The case as the search found it, kept next to its minimised form: minimisation runs inside the worker process
+	// that found the violation, whose history (whatever earlier cases left in the code under test) a fresh process
+	// does not have. The driver falls back to the original when the minimised form does not reproduce there.
+	OrigWorkload json.RawMessage `json:"original_workload,omitempty"`
+	OrigSched    *Sched          `json:"original_sched,omitempty"`
+	OrigDetail   string          `json:"original_detail,omitempty"`
 }
 
 // Job is what the driver asks a worker to do.
@@ -573,6 +579,12 @@ func Minimise(t *testing.T, p *Prop, rec *Record, w any, tick func()) {
 		return p.Exec(t, w, s)
 	}
 	s := rec.Sched
+	origW, origS, origD := rec.Workload, rec.Sched, rec.Detail
+	defer func() {
+		if rec.Minimised {
+			rec.OrigWorkload, rec.OrigSched, rec.OrigDetail = origW, &origS, origD
+		}
+	}()
 	base := try(w, s)
 	if !base.Has(sig) {
 		rec.Detail += " [not reproducible under lenient replay: not minimised]"
